@@ -58,6 +58,11 @@ def main(tier, seed, replay=None):
                 ob, tb = steps[k]["v"], steps[k + 1]["v"]
                 if ob["coef"] is not None and not all(is_finite_hex(h) for col in ob["coef"]["cols"] for h in col):
                     run.violation("non-finite coefficients for finite model values", {"case": c, "step": k, "observe": ob})
+                wv = num.weights_of(c)
+                if ob["coef"] is None and tb["phi"] is not None and num.all_finite_mat(tb["phi"]) \
+                        and (wv is None or all(is_finite_hex(h) for h in wv)):
+                    run.violation("state #%d: no coefficients although the model evaluates to finite values" % k,
+                                  {"case": c, "step": k, "observe": ob, "tables": tb})
                 t = num.state_term(c, ob, tb, with_jac=False, mode=1)
                 if t is not None:
                     terms.append(t)
